@@ -49,7 +49,9 @@ def model_findings(rep):
     return _cache[key]
 
 
-GATING = {"spellings that differ only by diacritics name different months", "spellings that differ only by diacritics mean different things"}
+GATING = {"spellings that differ only by diacritics name different months", "spellings that differ only by diacritics mean different things",
+          "a month name is bound to another month", "a duration word or day keyword is bound to another meaning"}
+FOLD_RULES = {"spellings that differ only by diacritics name different months", "spellings that differ only by diacritics mean different things"}
 
 
 def report(rep, tables, form):
@@ -59,15 +61,16 @@ def report(rep, tables, form):
     for f in model_findings(rep):
         w = f["what"]
         if f["inv"] in GATING and w.get("table") in tables:
-            rep.violation({"check": "config", "form": form, "text": "config.json languages.%s.%s" % (w["lang"], w["table"]), "spellings": [w["a"], w["b"]],
-                           "feat": {"form": form, "failure": "spellings_that_differ_only_by_diacritics_disagree", "lang": w["lang"], "table": w["table"]},
+            rep.violation({"check": "config", "form": form, "text": "config.json languages.%s.%s" % (w["lang"], w["table"]), "spellings": sorted({w["a"], w["b"]}), "rule": f["inv"],
+                           "feat": {"form": form, "failure": "spellings_that_differ_only_by_diacritics_disagree" if f["inv"] in FOLD_RULES else "word_bound_to_another_meaning",
+                                    "lang": w["lang"], "table": w["table"]},
                            "class": "config|%s|%s|%s" % (w["lang"], w["table"], w["fold"])})
         elif f["inv"] not in GATING:
             other.append(f)
     rep.extra["config_model"] = {"findings": len(other), "examples": other[:8]}
     # the Python twin of the fold rule stays as a cross-check of the TLC run (same answer or a tool error)
     twin = {(l, t, f) for l, t, f, _ in conflicts(tables)}
-    mine = {(f["what"]["lang"], f["what"]["table"], f["what"]["fold"]) for f in model_findings(rep) if f["inv"] in GATING and f["what"].get("table") in tables}
+    mine = {(f["what"]["lang"], f["what"]["table"], f["what"]["fold"]) for f in model_findings(rep) if f["inv"] in FOLD_RULES and f["what"].get("table") in tables}
     if twin != mine:
         from vlib import ToolError
         raise ToolError("configuration lint: TLC and the Python twin disagree: %s vs %s" % (sorted(mine), sorted(twin)))
